@@ -28,7 +28,16 @@ P = {
          TRUST,
          "§3 C02"),
  "C03": (False, "", "", "", "§3 C03"),
- "C04": (False, "", "", "", "§3 C04"),
+ "C04": (True,
+         "must-pass-through analysis on SSA control-flow graphs, path-sensitive refinement, slots closed under forwarding (custom analyzer)",
+         "Decides that no traversal path of the unpack family skips validation, for all target types and configurations: every successful return of "
+         "every value-producing routine (found from the reflect stores into the target, closed under forwarding) is preceded on all feasible paths "
+         "by runValidators/tryRecursiveValidate on the function's own validators, or forwards to a family member that receives those validators, or "
+         "lies under a reflect-kind fact that fixes the value to a struct/Config kind; the same for Validate() via tryValidate; accessField is the only "
+         "reader of the validator tag and its result is what the family receives. One reasoned exception (pointer-to-map branch of reifyValue). "
+         "That each built-in validator computes the right predicate is not decided.",
+         TRUST + "Custom validators and Validate() methods are user code: decided is that they are called.",
+         "§3 C04"),
  "C06": (False, "", "", "", "§3 C06"),
  "C07": (False, "", "", "", "§3 C07"),
  "C08": (True,
